@@ -583,6 +583,9 @@ def check_C04(chk):
             lines.append(f"decbig id=big{i}-{mode} mode={mode} v={sh['v']} seed={r.randint(1, 2**40)} adlen={sh['adlen']} "
                          f"mlen={sh['mlen']} tamper={sh['tam']} pos={pos} alias={sh['alias']} pf={sh['pf']} cls={r.choice('rhf')}")
     groups = chunks(lines, 400)
+    if chk.thorough:
+        # a rejected packet longer than 4 GiB (the length does not fit 32 bits), decrypted in place: every byte must be zero
+        groups.append([f"dechuge id=huge4g-{mode} mode={mode} v=128 mlen={(1 << 32) + 16 + 3 * j}" for j, mode in enumerate(('aead', 'siv'))])
     execs, _ = run_groups(chk, exe, groups)
     # the same packets on other build configurations (identical executions are judged once)
     seen = {json.dumps(ex, sort_keys=True) for ex in execs}
